@@ -26,8 +26,13 @@ CHILD = {
     'awaitv': [['AWAIT', 'c1_vict'], ['D', 1]],
     'tick': [['D', 1], ['D', 1], ['D', 1], ['D', 1]],
     'forever': [['ETERNITY']],
+    # children that are still waiting for their start date when the block ends
+    'after2': [['D', 1]],
+    'at2': [['D', 1], ['PROBE', 'now']],
+    'after1': [['D', 2]],
 }
-VOLATILE = ('tick', 'forever', 'finspawn', 'd1')
+CHILD_OPTS = {'after2': {'after': 2}, 'at2': {'at': 2}, 'after1': {'after': 1}}
+VOLATILE = ('tick', 'forever', 'finspawn', 'd1', 'after2')
 BODIES = {
     'none': [],
     'd1': [['D', 1]],
@@ -36,7 +41,8 @@ BODIES = {
     'raise1': [['D', 1], ['RAISE', 'IndexError', 'body']],
     'priv1': [['D', 1], ['RAISE', 'KeyboardInterrupt', 'body']],
 }
-KINDS = {'scope': None, 'until1': ['DELAY', 1], 'until2': ['DELAY', 2], 'untilf': ['F', 'stop']}
+KINDS = {'scope': None, 'until1': ['DELAY', 1], 'until2': ['DELAY', 2], 'untilf': ['F', 'stop'],
+         'untilpast': ['EQ', -1], 'untilnow': ['GE', 0]}
 
 
 def program(kind, kids, body, outsider=None):
@@ -45,7 +51,10 @@ def program(kind, kids, body, outsider=None):
     for i, (ck, vol) in enumerate(kids):
         name = 'c%d_%s' % (i + 1, ck)
         script = rename(CHILD[ck], i + 1)
-        dos.append(['DO', name, script, {'volatile': True} if vol else None])
+        opts = dict(CHILD_OPTS.get(ck, {}))
+        if vol:
+            opts['volatile'] = True
+        dos.append(['DO', name, script, opts or None])
     inner = dos + BODIES[body]
     blk = ['SCOPE', 's0', inner] if kind == 'scope' else ['UNTIL', 's0', KINDS[kind], inner]
     owner = [['TRY', [blk]], ['PROBE', 'now'], ['D', 1]]
@@ -71,7 +80,8 @@ def cases(tier):
     thorough = tier == 'thorough'
     out = []
     singles = [k for k in CHILD if k not in ('vict', 'killer', 'awaitv')]
-    pairs_a = ['d1', 'd2', 'f0', 'f1', 'f1b', 'f2', 'priv1', 'nest_fail', 'nest_slow', 'late1', 'waiter', 'finspawn', 'tick']
+    pairs_a = ['d1', 'd2', 'f0', 'f1', 'f1b', 'f2', 'priv1', 'nest_fail', 'nest_slow', 'late1', 'waiter', 'finspawn', 'tick',
+               'after2', 'at2']
     tri = ['d2', 'f1', 'f1b', 'nest_fail', 'waiter', 'tick'] if thorough else ['d2', 'f1', 'f1b', 'tick']
     bodies = list(BODIES)
     kinds = list(KINDS)
@@ -84,7 +94,7 @@ def cases(tier):
                     if ck == 'forever' and not v:
                         continue
                     out.append(program(kind, [(ck, v)], body))
-            pa = pairs_a if (thorough or kind in ('scope', 'until1')) else pairs_a[::2]
+            pa = pairs_a if (thorough or kind in ('scope', 'until1')) else (pairs_a[::2] if kind != 'untilpast' else pairs_a[::3])
             for a, b in itertools.product(pa, pa):
                 for va in vols(a)[-1:]:
                     for vb in vols(b)[-1:]:
